@@ -94,6 +94,11 @@ private def runOps (cfg : Cfg) : Node → List Op → List String
     let (nd', o) := step cfg nd op
     (vssOutS o ++ "/" ++ stateS cfg nd') :: runOps cfg nd' ops
 
+/-- Exported for the Rabin DKG handler (`Drive/RabinDkg.lean`). -/
+def vssParseDeal (s : String) : Option Deal := parseDeal s
+def vssBool01 (s : String) : Option Bool := bool01 s
+def vssStateS (cfg : Cfg) (nd : Node) : String := stateS cfg nd
+
 def handleVss : List String → String
   | var :: strict :: n :: q :: h :: role :: ops =>
     match (if var = "p" then some Variant.pedersen else if var = "r" then some Variant.rabin else none),
